@@ -119,6 +119,27 @@ CONTEXTS = [
 ]
 
 
+_NEEDS: dict[str, bool] = {}
+
+
+def needs_resolution(code: str) -> bool:
+    """does the check consult what only mypy's semantic analysis provides (fullnames, symbol nodes, types)?  Read off the
+    check's own source: such a check cannot fire in a block mypy does not analyse; a purely syntactic one can."""
+    if not _NEEDS:
+        import re as _re
+
+        from .. import extract as _ex
+
+        for r in _ex.catalogue_rows():
+            try:
+                mod = __import__(r["module"], fromlist=["x"])
+                src = Path(mod.__file__).read_text()
+            except Exception:  # noqa: BLE001
+                src = ""
+            _NEEDS[f"{r['prefix']}{r['code']}"] = bool(_re.search(r"fullname|get_mypy_type|is_same_type|is_pathlike|is_subclass|\.node\b|is_mapping|is_sized|TypeInfo|is_bool_literal|is_none_literal", src))
+    return _NEEDS.get(code, True)
+
+
 def line_dead_under(src: str, line: int, v: tuple[int, int]) -> bool:
     """is `line` inside a branch of an `if sys.version_info <op> (3, N):` statement that cannot run under version v?
     (mypy decides the same from the target version and does not analyse such a branch at all)"""
@@ -766,7 +787,7 @@ def run(ctx) -> None:
                         where = "dead-version-guard-branch" if line_dead_under(by_name[fname]["src"], line, hi) and not line_dead_under(by_name[fname]["src"], line, lo) else "live-code"
                         res.violate(
                             f"{code} at {by_name[fname]['origin']}:{line} is reported under {vstr(lo)} and not under {vstr(hi)} ({where})",
-                            {"kind": "diagnostic-lost-when-raising-target", "check": code, "where": where, "from": vstr(lo), "to": vstr(hi)},
+                            {"kind": "diagnostic-lost-when-raising-target", "check": code, "where": where, "needs": "resolved-names" if needs_resolution(code) else "syntax-only", "from": vstr(lo), "to": vstr(hi)},
                             {**base, "observed_higher": "nothing at that site", "required": "the diagnostic stays (or switches to a newer spelling)"},
                         )
                 else:
